@@ -641,8 +641,8 @@ theorem nsAt_eq_scopeAt (ns0 : NsMap) (root : Node) (hs : root.sibOk = true) (i 
 
 /-- a selected node `1` with an attribute `p:x` and a trailing child `2` that rebinds `p` -/
 def trailingDecl : Node :=
-  .mk 1 0 "item" [⟨"f1", "p:x", some .qname, 0⟩] none "" []
-    [.mk 2 1 "note" [] (some .string) "x" [("p", "urn:b")] []]
+  .mk 1 0 "item" [⟨"f1", "p:x", some .qname, 0⟩] none "" 0 []
+    [.mk 2 1 "note" [] (some .string) "x" 0 [("p", "urn:b")] []]
 
 example : trailingDecl.sibOk = true := by decide
 
@@ -723,8 +723,8 @@ theorem field_scope_repaired (ns0 : NsMap) (root : Node) (f : List Path) (n : No
 /-- the witness of finding C08-F8 (replayed on the real code by the harness):
     `<item><f1 xmlns:p="urn:b">p:x</f1></item>` under `xmlns:p="urn:a"` -/
 def fieldDecl : Node :=
-  .mk 1 0 "item" [] none "" []
-    [.mk 2 1 "f1" [] (some .qname) "p:x" [("p", "urn:b")] []]
+  .mk 1 0 "item" [] none "" 0 []
+    [.mk 2 1 "f1" [] (some .qname) "p:x" 0 [("p", "urn:b")] []]
 
 def f1Path : List Path := [⟨false, [.child "f1"], none⟩]
 
@@ -758,5 +758,71 @@ theorem id_ok_iff (evs : List IdEv) :
 
 example : idRun [.idref "a", .id "a", .id "b"] = [] := by decide
 example : idRun [.id "a", .idref "z", .id "a"] = [.dup "a", .dangling "z"] := by decide
+
+/-- **ID / IDREF with binders** (XSD 1.1: the attributes of an element and its simple-typed ID
+    children share one `id_list`; XSD 1.0: every occurrence has its own binder): the validator
+    reports nothing exactly when every ID value is bound to ONE element and every IDREF / IDREFS
+    item is the value of some ID — for occurrences at any depth, in any order. -/
+theorem id_bound_iff (evs : List BEv) :
+    idRun (collapse evs) = [] ↔
+      Consistent (bindsOf evs) ∧ ∀ r ∈ brefsOf evs, ∃ b, (r, b) ∈ bindsOf evs := by
+  rw [id_ok_iff]
+  unfold collapse
+  have h1 := collapse_ids evs [] (by intro v b1 b2 h; cases h)
+  simp only [lookB, implies_true, and_true, List.nil_append] at h1
+  rw [h1, collapse_refs]
+  have h3 : ∀ x, x ∈ idsOf (collapseAux [] evs) ↔ ∃ b, (x, b) ∈ bindsOf evs := by
+    intro x
+    have := collapse_mem evs [] x
+    simpa [lookB] using this
+
+  constructor
+  · intro ⟨c, h⟩; exact ⟨c, fun r hr => (h3 r).mp (h r hr)⟩
+  · intro ⟨c, h⟩; exact ⟨c, fun r hr => (h3 r).mpr (h r hr)⟩
+
+/-- the element the validation starts from is a node like any other: unless its own CONTENT is an
+    ID (the region of finding C08-F9) the occurrences the current tree records are all of them —
+    in particular the ID / IDREF / IDREFS attributes of the root are recorded -/
+theorem idEvents_root (v11 : Bool) (root : Node) (h : root.ck ≠ 1 ∧ root.ck ≠ 4) :
+    idEvents v11 false root = idEvents v11 true root := by
+  cases root with
+  | mk i d nm a t x ck xm kids =>
+    simp only [Node.ck] at h
+    simp [idEvents, Node.idEv, h.1, h.2]
+
+/-- `<doc id="a"><item id="b" idr="a"/></doc>`: the ID on the root is found by the reference below
+    it, and `<doc id="a"><item id="a"/></doc>` is a duplicate (both XSD versions) -/
+def rootIdDoc (v : String) : Node :=
+  .mk 0 0 "doc" [⟨"id", "a", none, 1⟩] none "" 0 []
+    [.mk 1 1 "item" [⟨"id", v, none, 1⟩, ⟨"idr", "a", none, 2⟩, ⟨"idrs", " a  b ", none, 3⟩] none "" 0 [] []]
+
+theorem root_id_witness :
+    idRun (idEvents false false (rootIdDoc "b")) = [] ∧ idRun (idEvents true false (rootIdDoc "b")) = [] ∧
+    idRun (idEvents false false (rootIdDoc "a")) = [.dup "a", .dangling "b"] ∧
+    idRun (idEvents true false (rootIdDoc "a")) = [.dup "a", .dangling "b"] := by
+  decide
+
+/-- `<e idr="a">a</e>` validated on its own (e: xs:ID simple content + an IDREF attribute) -/
+def rootContentDoc : Node := .mk 0 0 "e" [⟨"idr", "a", none, 2⟩] none "a" 4 [] []
+
+/- Full statement: `idEvents v11 false root = idEvents v11 true root` for every root.  FALSE for the
+   current tree when the content of the root element itself is an ID: simple content is decoded at
+   level 0 and `elif context.level:` skips it (finding C08-F9). -/
+theorem root_content_id_counterexample :
+    idRun (idEvents false false rootContentDoc) = [.dangling "a"] ∧
+    idRun (idEvents false true rootContentDoc) = [] ∧
+    ¬ (rootContentDoc.ck ≠ 1 ∧ rootContentDoc.ck ≠ 4) := by
+  decide
+
+/-- XSD 1.1: `<s id="a"><eid>a</eid></s>` binds `a` to `s` twice — accepted; in XSD 1.0 it is a
+    duplicate; an ID on a different element is a duplicate in both -/
+def sharedListDoc : Node :=
+  .mk 0 0 "s" [⟨"id", "a", none, 1⟩] none "" 0 []
+    [.mk 1 1 "eid" [] none "a" 1 [] [], .mk 2 1 "eid" [] none " a " 1 [] []]
+
+theorem id_list_witness :
+    idRun (idEvents true false sharedListDoc) = [] ∧
+    idRun (idEvents false false sharedListDoc) = [.dup "a", .dup "a"] := by
+  decide
 
 end XsVerif.Props.C08
